@@ -147,4 +147,41 @@ mod verif_replay_interp {
         assert_eq!(run(DONE, &["x", "y"]), fin("Pass"));
         assert_eq!(run(DONE, &["x", "z"]), fin("Early"));
     }
+
+    const EVENTLESS_FIRST: &str = r###"<scxml xmlns="http://www.w3.org/2005/07/scxml" initial="s0" version="1.0" datamodel="rfsm-expression">
+ <state id="s0"><transition event="go" target="s1"><raise event="int1"/></transition></state>
+ <state id="s1"><transition target="s2"/><transition event="int1" target="fail"/></state>
+ <state id="s2"><transition event="int1" target="pass"/><transition event="ext2" target="late"/></state>
+ <final id="pass"/><final id="fail"/><final id="late"/>
+</scxml>"###;
+
+    /// C03: inside a macrostep an enabled eventless transition is taken before the next internal event is dequeued,
+    /// and internal events before the next external one
+    #[test]
+    fn verif_replay_interp_eventless_before_internal() {
+        assert_eq!(run(EVENTLESS_FIRST, &["go", "ext2"]), fin("pass"));
+    }
+
+    const INVOKE_TRANSIENT: &str = r###"<scxml xmlns="http://www.w3.org/2005/07/scxml" initial="s0" version="1.0" datamodel="rfsm-expression">
+ <state id="s0">
+  <invoke type="scxml" id="ghost"><content><scxml xmlns="http://www.w3.org/2005/07/scxml" initial="c0" version="1.0" datamodel="rfsm-expression"><state id="c0"><onentry><send target="#_parent" event="child.alive"/></onentry></state></scxml></content></invoke>
+  TRANSITION
+ </state>
+ <state id="s1">
+  <onentry><send event="check" delay="1s"/></onentry>
+  <transition event="child.alive" target="alive"/>
+  <transition event="check" target="quiet"/>
+ </state>
+ <final id="alive"/><final id="quiet"/>
+</scxml>"###;
+
+    /// C14: the <invoke> of a state entered and exited within one macrostep is never started;
+    /// the invoke of a state that is still active at the end of the macrostep is (control)
+    #[test]
+    fn verif_replay_interp_invoke_only_for_stable_states() {
+        let transient = INVOKE_TRANSIENT.replace("TRANSITION", r#"<transition target="s1"/>"#);
+        assert_eq!(run(&transient, &[]), fin("quiet"));
+        let stable = INVOKE_TRANSIENT.replace("TRANSITION", r#"<transition event="child.alive" target="alive"/>"#);
+        assert_eq!(run(&stable, &[]), fin("alive"));
+    }
 }
